@@ -7,6 +7,35 @@ VERIF = os.path.dirname(os.path.dirname(os.path.abspath(__file__)))
 
 # id -> (technique, level text, level note, design section)
 CLAIMED = {
+    "C01": (
+        "Hypothesis-generated image geometries vs an independent affine reference map plus "
+        "interior-point and typed-point round-trips",
+        "Thousands of generated geometries (1-3-D, single-voxel axes, voxel sizes 1e-4..1e4, origins up "
+        "to 1e6 voxel sizes away, all payload kinds) are evaluated on every voxel plus a halo of "
+        "out-of-range indices, in all call forms; the oracle is a 15-line reference map written from "
+        "the documented convention. Sampling cannot prove all floats, hence exploration.",
+        "RefCS convention table is trusted; points within max(1e-6, 64 eps(|x|+|o|)/h) of a voxel face "
+        "are not asserted.",
+        "4/C01",
+    ),
+    "C06": (
+        "exhaustive shape enumeration + Hypothesis-generated grids vs an independent incidence model "
+        "(net outflow, adjointness, interpolation, averaging laws)",
+        "All 186 shapes of the stated range x 3 voxel-size classes are enumerated completely with "
+        "integer-valued payloads (exact arithmetic) and compared entry by entry with an independently "
+        "enumerated incidence model; random larger grids and evaluation points are added by Hypothesis.",
+        "RefGrid enumeration is trusted; payloads are sampled, shapes are exhausted.",
+        "4/C06",
+    ),
+    "C07": (
+        "exhaustive enumeration of grid shapes vs an independent Fortran-order enumeration of cells, "
+        "faces, connectivity and corner tables",
+        "Every shape in the stated range is enumerated and every table (face counts, numbering, "
+        "connectivity, reverse connectivity incl. the -1 pattern, interior/exterior partition, corner "
+        "indices) is compared with an independent enumeration; image-derived grids via Hypothesis.",
+        "RefGrid is trusted; the 1-D interior labelling is only required to be a partition.",
+        "4/C07",
+    ),
     "C15": (
         "exhaustive generated enumeration of all quadrature rules vs analytic monomial integrals "
         "and numpy leggauss tensor-product reference",
